@@ -368,4 +368,16 @@ def bitpatterns(maxlen=5, sample=None):
                 return dict(failed=True, case=dict(pattern=pat, fields=list(vals), value=v),
                             observed=dict(match=sim.inspect('m'), fields=got),
                             expected=dict(match=1, fields=list(vals)))
+        # range-exactness: a field value that does not fit its field is refused, at every distance
+        # from the boundary (one bit too wide, two bits too wide, far away)
+        clean = pat.replace('_', '').replace(' ', '')
+        for k, wk in enumerate(widths):
+            for bad in (1 << wk, (1 << wk) + 1, (1 << (wk + 1)) - 1, 1 << (wk + 1), (1 << (wk + 3)) + 5):
+                vals = [0] * len(widths)
+                vals[k] = bad
+                n += 1
+                st, v = _try(lambda: pyrtl.bitpattern_to_val(clean, *vals))
+                if st == 'ok':
+                    return dict(failed=True, case=dict(pattern=pat, fields=list(vals)),
+                                observed=dict(accepted=v), expected='PyrtlError (value does not fit its field)')
     return dict(failed=False, observed='ok', expected='ok', evaluations=n)
